@@ -41,7 +41,13 @@ def run_walk(sess):
             ctx.ghost['member_fault'] = {(i, j): (ctx.fresh_bool('mfault_%d_%d' % (i, j)) if faults else BoolVal(False)) for i in range(1, M) for j in range(fs.max_members + 1)}
             ctx.ghost['open_fault'] = {i: (ctx.fresh_bool('openfault%d' % i) if faults else BoolVal(False)) for i in range(1, M)}
             mind = ctx.fresh_bv('mindepth', 32); ctx.assume(ULE(mind, BitVecVal(2, 32)))
-            roots = [W.mk_root(prog, 'R0', mind, BitVecVal(0, 32), dfs, archives=BoolVal(archives))]
+            # the depth window has an upper end too (an archive lying exactly at the limit still shows its members): in the run without
+            # faults, so that the number of paths stays what it was
+            maxd = ctx.fresh_bv('maxdepth', 32) if not faults else BitVecVal(0, 32)
+            if not faults:
+                ctx.assume(Or(maxd == 0, And(ULE(maxd, BitVecVal(3, 32)), UGE(maxd, mind))))
+            ctx.ghost['maxd'] = maxd
+            roots = [W.mk_root(prog, 'R0', mind, maxd, dfs, archives=BoolVal(archives))]
             q = W.mk_query(prog, roots, BitVecVal(0, 32), ordered=False)
             status = W.run_exec_search(ctx, prog, q)
             return fs, mind, status
@@ -64,7 +70,8 @@ def run_walk(sess):
             cnt = {}
             for t in trace:
                 cnt[t] = cnt.get(t, 0) + 1
-            win = lambda d: Or(mind == 0, UGE(d, mind))
+            maxd = ctx.ghost['maxd']
+            win = lambda d: And(Or(mind == 0, UGE(d, mind)), Or(maxd == 0, ULE(d, maxd)))
             conds = []
             for i in range(1, M):
                 exp = And(reach[i], win(depth[i]))
@@ -87,8 +94,8 @@ def run_walk(sess):
             if viol.get(role):
                 return
             viol[role] = True
-            sess.violated(name, role, 'mindepth=%s: reported %r' % (m.eval(mind, model_completion=True), trace), {'trace': [list(t) for t in trace]},
-                          cli_replay(fs, m, m.eval(mind, model_completion=True).as_long(), mf, archives, dfs), fam)
+            sess.violated(name, role, 'mindepth=%s maxdepth=%s: reported %r' % (m.eval(mind, model_completion=True), m.eval(maxd, model_completion=True), trace), {'trace': [list(t) for t in trace]},
+                          cli_replay(fs, m, m.eval(mind, model_completion=True).as_long(), mf, archives, dfs, m.eval(maxd, model_completion=True).as_long()), fam)
 
         n, complete = ex.explore(runp, on_path, time_budget=240 if quick else 1500)
         name = '%s archives=%s%s' % (fam, archives, ' dfs' if dfs else '')
@@ -112,7 +119,7 @@ def make_zip_with_bad(n, bad):
     return out + cd + struct.pack('<IHHHHIIH', 0x06054b50, 0, 0, n, n, len(cd), off, 0)
 
 
-def cli_replay(fs, m, mind, mf, archives, dfs=False):
+def cli_replay(fs, m, mind, mf, archives, dfs=False, maxd=0):
     def rep():
         exe = common.native_binary()
         tree, path, par, kind, usable = tree_from_model(fs, m)
@@ -136,7 +143,7 @@ def cli_replay(fs, m, mind, mf, archives, dfs=False):
             elif iszip:
                 ent = {'content': make_zip_with_bad(nm, bad) if zok else b'PK\x03\x04garbage'}
             tree[newp] = ent
-            inwin = mind == 0 or depth[i] >= mind
+            inwin = (mind == 0 or depth[i] >= mind) and (maxd == 0 or depth[i] <= maxd)
             if inwin:
                 want.append(newp)
                 if iszip and zok and archives:
@@ -146,7 +153,7 @@ def cli_replay(fs, m, mind, mf, archives, dfs=False):
                 old = path[i]; path[i] = path[par[i]] + '/' + old.rsplit('/', 1)[1]
                 tree[path[i]] = tree.pop(old)
                 want = [w.replace(old, path[i]) for w in want]
-        argv = ['path', 'from', 'R0'] + (['archives'] if archives else []) + (['mindepth', str(mind)] if mind else []) + (['dfs'] if dfs else [])
+        argv = ['path', 'from', 'R0'] + (['archives'] if archives else []) + (['mindepth', str(mind)] if mind else []) + (['maxdepth', str(maxd)] if maxd else []) + (['dfs'] if dfs else [])
         r = common.run_cli(exe, argv, tree)
         got = r['stdout'].split('\n')[:-1]
         bad_ = sorted(got) != sorted(want) or r['status'] != 0
